@@ -9,7 +9,7 @@ META = {
            '32- and 64-bit types: every value < 100 (h_base), a value window |v| <= 99999 (quick) / 9999999 (thorough), and the edge set '
            '{10^k - 1, 10^k : all k} + {type maximum, maximum - 1, signed maximum, signed maximum - 1, signed minimum, signed minimum + 1}. '
            '(b) real numbers: only the decimal string kernels (stage iii of realToString) over a symbolic reversed digit run of NDIG <= 5 (quick) / 8 '
-           '(thorough) digits, precision <= 4, all three formats, under the call-site model written at the top of C10_fmt.cpp '
+           '(thorough; the model admits at most precision+2..3 digits in most modes) digits, precision <= 4, all three formats, under the call-site model written at the top of C10_fmt.cpp '
            '(validated natively on 5.0M Fixed and 3.0M Default call sites of random normal doubles: 0 deviations); V < 1 restricted to '
            'calculated_digits <= 3 (V > ~0.001), Default format with at most 3 dropped integer digits; zero / inf / nan for double and float, all formats.',
  'outside': '32/64-bit integers outside the window and edge set: no back end decided the Horner oracle for more than ~7 symbolic digits (measured: 32-bit '
@@ -75,6 +75,7 @@ def fmt_queries(tier):
             for mode in (0, 1, 2):
                 for n in range(1, NMAX + 1):
                     if mode == 1 and n < 2: continue
+                    if mode == 2 and n > 7: continue      # the model has no instance: NDIG <= precision + 3
                     b = fmt_bounds(n)
                     ex = list(FMT_KF)
                     qs.append(Query('fmt/%s/%s/mode%d/n%d' % ('fixed' if fixed else 'semifixed', ch, mode, n), 'C10_fmt.cpp', 'h_fixed',
@@ -83,6 +84,7 @@ def fmt_queries(tier):
     for mode in (0, 1, 2):
         for n in range(1, NMAX + 1):
             if mode == 1 and n < 2: continue
+            if n > (7 if mode == 2 else 6): continue      # the model has no instance: NDIG <= precision + 2 (+3 for V < 1)
             b = fmt_bounds(n); b.update({'h_default': n + 12, 'formatStringNumberDefault': n + 8, 'IntToString': 3})
             ex = list(DEF_KF)
             qs.append(Query('fmt/default/char/mode%d/n%d' % (mode, n), 'C10_fmt.cpp', 'h_default', kf({'NDIG': n, 'MODE': mode, 'CHAR': 'char'}, ex),
